@@ -52,6 +52,32 @@ pub fn main(args: Vec<String>) -> i32 {
         },
         "replay" => replay(&args[2]),
         "selftest" => selftest(),
+        "inproc" => {
+            // scalesim inproc <scenario> <from> <to> [step]: runs cases in this process, on this
+            // thread (used under Miri / sanitizers); prints violations; exit 1 if any.
+            let sc = scn::by_name(&args[2]).expect("scenario");
+            let from: u64 = args[3].parse().unwrap();
+            let to: u64 = args[4].parse().unwrap();
+            let step: u64 = args.get(5).and_then(|s| s.parse().ok()).unwrap_or(1);
+            crate::subjects::catalogue();
+            let mut st = Stats::default();
+            let mut bad = 0;
+            let mut idx = from;
+            while idx < to.min(sc.cases(Tier::Quick)) {
+                let plan = sc.gen(seed_from_env(), idx, Tier::Quick);
+                if let Err(v) = run_caught(sc, &plan, &mut st) {
+                    println!("INPROC-VIOLATION case={} class={} detail={}", idx, v.class, v.detail);
+                    bad += 1;
+                }
+                idx += step;
+            }
+            println!("INPROC done scenario={} from={} to={} step={} sub_runs={} violations={}", sc.name(), from, to, step, st.sub_runs, bad);
+            if bad > 0 {
+                1
+            } else {
+                0
+            }
+        },
         "list" => {
             for s in &crate::subjects::catalogue().list {
                 println!("{}", s.name);
